@@ -109,6 +109,8 @@ pub struct Sim {
     pub plan: BTreeMap<(u32, u32), Vec<Fault>>,
     pub fired: BTreeMap<&'static str, u64>,
     pub recording: bool,
+    /// tags handed to contract values that carry in-memory state (unique per run, never 0)
+    pub next_tag: u64,
 }
 
 impl Sim {
@@ -121,6 +123,7 @@ impl Sim {
             plan: BTreeMap::new(),
             fired: BTreeMap::new(),
             recording: true,
+            next_tag: 0,
         }
     }
 }
@@ -283,6 +286,15 @@ pub fn exit(cid: &str, handler: &str, res: Value) {
         cid: cid.to_string(),
         handler: handler.to_string(),
         res,
+    })
+}
+
+/// a fresh non-zero tag for a contract value built with something else than `new()`
+pub fn next_tag() -> u64 {
+    SIM.with(|s| {
+        let mut s = s.borrow_mut();
+        s.next_tag += 1;
+        s.next_tag
     })
 }
 
